@@ -34,10 +34,7 @@ def campaign(tier, seed):
         n = extract_cases(mc_out, cases)
         os.remove(mc_out)
         trace = st.path("trace.ndjson")
-        rc, out, _ = sh([BIN, "iter", "--cases", cases, "--out", trace], timeout=3000)
-        if rc != 0:
-            raise ToolError("harness failed: " + out[-2000:])
-        hstat = json.loads(out.strip().splitlines()[-1])
+        hstat, aborts = run_harness(lambda c, t, tag: [[BIN, "iter", "--cases", c, "--out", t]], cases, trace, chunk=8000, par=6)
         tv_out = st.path("tv.out")
         tv = run_tlc_trace("IterTrace", os.path.join(SPEC, "IterTrace.cfg"), trace, tv_out, workers=3,
                            chunk=30000, par=5, timeout=6000)
@@ -54,6 +51,7 @@ def campaign(tier, seed):
             if key not in seen:
                 seen.add(key)
                 recs.append(r)
+        recs += aborts
         os.remove(tv_out)
         samples, rel = [], {"C25": 0, "C26": 0}
         with open(cases) as f:
